@@ -389,6 +389,116 @@ func noteWorst(after string) {
 		fmt.Sprintf("single-intersection end points %.3g, two-intersection end points %.3g", worstRatio[0], worstRatio[1]))
 }
 
+// ---------------------------------------------------------------- concurrent callers
+
+// drawBigCase: paths of 20..300 vertices winding in and out of the box (so that one
+// clip call lasts long enough to overlap with others), or an ordinary case.
+func drawBigCase(t *rapid.T) Case {
+	switch rapid.IntRange(0, 5).Draw(t, "bigkind") {
+	case 0:
+		c, _ := drawGridCase(t)
+		return c
+	case 1:
+		c, _ := drawFloatCase(t)
+		return c
+	}
+	lattice := rapid.IntRange(0, 3).Draw(t, "lattice") != 0 // the exact model is ten times cheaper on the lattice
+	var box orb.Bound
+	var p ptGen
+	if lattice {
+		x0, x1 := orderedInts(t, 2, 10, "bx")
+		y0, y1 := orderedInts(t, 2, 10, "by")
+		box = orb.Bound{Min: orb.Point{float64(x0), float64(y0)}, Max: orb.Point{float64(x1), float64(y1)}}
+		p = func(t *rapid.T) orb.Point {
+			return orb.Point{float64(rapid.IntRange(0, 24).Draw(t, "x")) / 2, float64(rapid.IntRange(0, 24).Draw(t, "y")) / 2}
+		}
+	} else {
+		f := func(lo, hi float64, l string) float64 { return rapid.Float64Range(lo, hi).Draw(t, l) }
+		box = orb.Bound{Min: orb.Point{f(0, 3, "bx0"), f(0, 3, "by0")}, Max: orb.Point{f(3.01, 6, "bx1"), f(3.01, 6, "by1")}}
+		p = func(t *rapid.T) orb.Point { return orb.Point{f(-2, 8, "x"), f(-2, 8, "y")} }
+	}
+	c := Case{Box: gen.FromBound(box), Open: rapid.Bool().Draw(t, "open")}
+	for i, nl := 0, rapid.IntRange(1, 3).Draw(t, "nl"); i < nl; i++ {
+		n := rapid.IntRange(20, 300).Draw(t, "n")
+		if !lattice {
+			n = 20 + n/3
+		}
+		ls := make(orb.LineString, n)
+		for j := range ls {
+			ls[j] = p(t)
+		}
+		if !lattice {
+			snapNearAxis(ls)
+		}
+		c.Lines = append(c.Lines, gen.Pts(ls))
+	}
+	return c
+}
+
+// concurrentGroup: every case is first checked alone (full oracle), its
+// results are recorded, and then all cases are clipped at the same time on
+// their own goroutines, `rounds` times each: clip.LineString,
+// clip.MultiLineString and clip.Geometry depend on their arguments only, so
+// every concurrent result must be bit-identical to the one computed alone.
+func concurrentGroup(cs []Case, rounds int) (refs [][]orb.Geometry, f func(i int) error, err error) {
+	refs = make([][]orb.Geometry, len(cs))
+	for i, c := range cs {
+		if err := stats.Guard(func() error { return checkCase(c) }); err != nil {
+			return nil, nil, fmt.Errorf("case %d of the group fails on its own: %w", i, err)
+		}
+		refs[i] = outputs(c)
+	}
+	reps := make([]int, len(cs))
+	for i, c := range cs {
+		v := 0
+		for _, l := range c.Lines {
+			v += len(l)
+		}
+		reps[i] = max(1, min(100, 300/(v+1))) // short calls are repeated: many entries per round
+	}
+	return refs, func(i int) error {
+		for k := 0; k < reps[i]; k++ {
+			if err := sameOutputs(outputs(cs[i]), refs[i]); err != nil {
+				return err
+			}
+		}
+		return nil
+	}, nil
+}
+
+func TestPropConcurrent(t *testing.T) {
+	assumptions()
+	stats.Check(t, 1600, 50000, func(rt *rapid.T) {
+		n := rapid.IntRange(2, 8).Draw(rt, "goroutines")
+		cs := make([]Case, n)
+		nt := 0
+		for i := range cs {
+			cs[i] = drawBigCase(rt)
+			r := false
+			box := cs[i].Box.Bound()
+			for _, ls := range cs[i].lines() {
+				m := model(box, ls, cs[i].Open)
+				r = r || m.Partial || m.OnBoundary || m.AlongEdge
+			}
+			if r {
+				nt++
+			}
+		}
+		stats.Class(fmt.Sprintf("concurrent:%d goroutines", n))
+		if nt >= 2 {
+			stats.NonTrivial("conc:" + gen.JSON(cs))
+			if stats.WantSample("concurrent") {
+				stats.Sample("concurrent", cs)
+			}
+		}
+		_, f, err := concurrentGroup(cs, 12)
+		if err != nil {
+			stats.Try(rt, "TestPropConcurrent", cs, func() error { return err })
+		}
+		stats.TryParallel(rt, "TestPropConcurrent", cs, n, 12, f)
+	})
+}
+
 // ---------------------------------------------------------------- exhaustive lattice
 
 func lattice() ([]orb.Point, []orb.Bound) {
@@ -591,6 +701,23 @@ func TestReplay(t *testing.T) {
 	_, raw, ok := stats.Replaying()
 	if !ok {
 		t.Skip("no replay file")
+	}
+	if name, _, _ := stats.Replaying(); name == "TestPropConcurrent" {
+		var cs []Case
+		if err := json.Unmarshal(raw, &cs); err != nil {
+			t.Fatal(err)
+		}
+		_, f, err := concurrentGroup(cs, 200)
+		if err != nil {
+			t.Fatalf("replayed concurrent group: %v", err)
+		}
+		for k := 0; k < 20; k++ {
+			if err := stats.ParallelErr(len(cs), 200, f); err != nil {
+				t.Fatalf("replayed concurrent group still fails: %v", err)
+			}
+		}
+		fmt.Println("replayed concurrent group passes")
+		return
 	}
 	var c Case
 	if err := json.Unmarshal(raw, &c); err != nil {
